@@ -103,3 +103,19 @@ Qed.
 Example accepted_total_instance :
   check_C06 (CIntAll [2;3]%nat 1 (1#4) [1;2;3;4;5;6]%Q [(21#4)%Q]) = true.
 Proof. vm_compute. reflexivity. Qed.
+
+From DF Require Import C08_arrays.
+(* transfer: the observed cumulative integral at the cell (and component) with multi-index i is the
+   cell length times (half the cell's own value plus the sum of the preceding cells on its grid line) *)
+Theorem accepted_cumulative sh nvdim ax h vals obs i
+        (ln := line (sh ++ [nvdim]) (arr sh nvdim vals) ax i) :
+  check_C06 (CIntCum sh nvdim ax h vals obs) = true ->
+  inb (sh ++ [nvdim]) i = true -> (nth ax i 0%nat < length ln)%nat ->
+  nth (ravel (sh ++ [nvdim]) i) (qcl obs) 0%Qc
+  = ((nth (nth ax i 0%nat) ln 0%Qc / f2 QcOps + fsum QcOps (firstn (nth ax i 0%nat) ln)) * qc h)%Qc.
+Proof.
+  intros H Hi Hj. apply check_int_cum_sound in H. destruct H as [_ ->].
+  rewrite nth_to_list by exact Hi.
+  unfold integrate_cum, along_axis. fold ln.
+  exact (cum_line_nth QcOps QcLaws (qc h) ln (nth ax i 0%nat) Hj).
+Qed.
